@@ -11,9 +11,9 @@ PROP = "C01"
 def run(tier: str, seed: int, replay=None) -> int:
     return eqlcheck.run_check(
         PROP, tier, seed, replay, profile="c01+quant", mode="set", n_quick=3000, n_thorough=120000,
-        targets=["Props/C01.vo"],
+        targets=["Props/C01.vo"], dep_prop="C01b",
         in_fragment=lambda c: eqlcheck.FRAG.get(eqlcheck.case_key(c), False),
-        modelled_classes=["K_emptydom", "K_quant_nofalse", "K_forall_open", "K_quant_shadow"],
+        modelled_classes=["K_emptydom", "K_emptyflat", "K_quant_nofalse", "K_forall_open", "K_quant_shadow"],
         trusted=[
             "hand-written model Eql/Eval.v of symbolic.py (Variable/Literal/Attribute/Comparator/AND/ElseIf/Union/Not/Exists/ForAll, "
             "QueryObjectDescriptor selection by nested loops under one assignment), tied by differential execution through the public API; for the logical operators "
